@@ -100,11 +100,88 @@ type aliasTo struct {
 type boolEnv struct {
 	m     map[ssa.Value]bool
 	alias map[ssa.Value]aliasTo // value ≡ another (not yet decided) boolean expression on this path
+	isNil map[ssa.Value]bool    // nil-ness of (error/pointer) values decided on this path
 	undo  []func()
 }
 
 func newBoolEnv() *boolEnv {
-	return &boolEnv{m: map[ssa.Value]bool{}, alias: map[ssa.Value]aliasTo{}}
+	return &boolEnv{m: map[ssa.Value]bool{}, alias: map[ssa.Value]aliasTo{}, isNil: map[ssa.Value]bool{}}
+}
+
+func (e *boolEnv) setNil(v ssa.Value, n bool) {
+	old, had := e.isNil[v]
+	e.isNil[v] = n
+	e.undo = append(e.undo, func() {
+		if had {
+			e.isNil[v] = old
+		} else {
+			delete(e.isNil, v)
+		}
+	})
+}
+
+// nilCompare: cond is `x == nil` / `x != nil`; returns x and whether the
+// condition being true means x is nil.
+func nilCompare(cond ssa.Value) (x ssa.Value, trueMeansNil bool, ok bool) {
+	bo, isB := cond.(*ssa.BinOp)
+	if !isB || (bo.Op != token.EQL && bo.Op != token.NEQ) {
+		return nil, false, false
+	}
+	switch {
+	case isNilConst(bo.Y):
+		x = bo.X
+	case isNilConst(bo.X):
+		x = bo.Y
+	default:
+		return nil, false, false
+	}
+	return x, bo.Op == token.EQL, true
+}
+
+// nilOf: is v known to be nil / non-nil on this path?
+func (e *boolEnv) nilOf(fr *Frame, v ssa.Value) (isNil, known bool) {
+	for i := 0; i < 6; i++ {
+		if isNilConst(v) {
+			return true, true
+		}
+		if n, ok := e.isNil[v]; ok {
+			return n, true
+		}
+		if p, ok := v.(*ssa.Parameter); ok && fr != nil {
+			c := fr.Canon(p)
+			if c == ssa.Value(p) {
+				return false, false
+			}
+			v = c
+			continue
+		}
+		return false, false
+	}
+	return false, false
+}
+
+// bindNilness records, at the Return of an inlined helper, the nil-ness of
+// its non-boolean results for the caller.
+func (e *boolEnv) bindNilness(fr *Frame, ret *ssa.Return) {
+	results := retResults(ret)
+	set := func(target, rv ssa.Value) {
+		if n, ok := e.nilOf(fr, rv); ok {
+			e.setNil(target, n)
+		} else if _, had := e.isNil[target]; had {
+			old := e.isNil[target]
+			delete(e.isNil, target)
+			e.undo = append(e.undo, func() { e.isNil[target] = old })
+		}
+	}
+	if len(results) == 1 {
+		set(fr.call, results[0])
+		return
+	}
+	for _, ref := range *fr.call.Referrers() {
+		if ex, ok := ref.(*ssa.Extract); ok && ex.Index < len(results) {
+			set(ex, results[ex.Index])
+		}
+	}
 }
 
 func (e *boolEnv) setAlias(v ssa.Value, to aliasTo) {
@@ -167,6 +244,12 @@ func (e *boolEnv) eval(fr *Frame, v ssa.Value) (val, known bool) {
 	for i := 0; i < 8; i++ {
 		if b, ok := e.m[v]; ok {
 			return b, true
+		}
+		if x, trueMeansNil, ok := nilCompare(v); ok {
+			if n, known := e.nilOf(fr, x); known {
+				return n == trueMeansNil, true
+			}
+			return false, false
 		}
 		switch x := v.(type) {
 		case *ssa.Const:
